@@ -476,6 +476,49 @@ func (w *world) probeRTSP(hist string) {
 		c.Conn.Close()
 		vrt.WhenIdle()
 	}
+	// user deleted (or deleted and created again with another password and no rights) in
+	// mid-session, after DESCRIBE or after SETUP: every later request of that session must be
+	// refused and no media delivered — a session must not keep deciding on the user object it
+	// looked up earlier (seed C11-r5-m1).
+	for _, p := range []string{"/a", "/b"} {
+		u := cred{"u", "u", upw}
+		if !(valid(u) && m.may("u", false, p)) {
+			continue
+		}
+		mu := m.users["u"]
+		for _, after := range []string{"DESCRIBE", "SETUP"} {
+			for _, recreate := range []bool{false, true} {
+				c := hs.NewTCP("deleted-" + p[1:])
+				vrt.WhenIdle()
+				s1, _ := rtspReq(c, u, "DESCRIBE", "rtsp://h"+p, nil, "")
+				s2 := 0
+				if after == "SETUP" {
+					s2, _ = rtspReq(c, u, "SETUP", "rtsp://h"+p+"/streamid=0", map[string]string{"Transport": "RTP/AVP/TCP;unicast;interleaved=0-1"}, "")
+				}
+				auth.Del("u")
+				if recreate {
+					auth.Save(&auth.User{Name: "u", Password: "another-password"}, true)
+				}
+				if after == "DESCRIBE" {
+					s2, _ = rtspReq(c, u, "SETUP", "rtsp://h"+p+"/streamid=0", map[string]string{"Transport": "RTP/AVP/TCP;unicast;interleaved=0-1"}, "")
+				}
+				s3, _ := rtspReq(c, u, "PLAY", "rtsp://h"+p, nil, "")
+				streams[p].WriteRtpPacket(hx.Pkt(rtp.ChannelVideo, 96, true, 5, 15000, rtppack.H264Single(hx.NAL(2, 1, 5, 11))))
+				vrt.WhenIdle()
+				got := len(hs.Frames(c.Drain()))
+				if recreate {
+					auth.Del("u")
+				}
+				auth.Save(&auth.User{Name: "u", Password: mu.password, Admin: mu.admin, PullAccess: mu.pull, PushAccess: mu.push}, true)
+				lateSetup := after == "DESCRIBE" && s2 == 200
+				if s1 == 200 && (lateSetup || s3 == 200 || got > 0) {
+					w.x.Failf("rtsp deleted-user-still-served after="+after, "history [%s]: u described %s, was deleted (created again with another password: %v) after %s; SETUP %d PLAY %d, %d frames delivered", hist, p, recreate, after, s2, s3, got)
+				}
+				c.Conn.Close()
+				vrt.WhenIdle()
+			}
+		}
+	}
 	// switching path mid-session: DESCRIBE an allowed path, SETUP/PLAY naming another
 	for _, cr := range []cred{{"u", "u", upw}, {"v", "v", "vpw"}} {
 		for _, from := range []string{"/a", "/b"} {
@@ -560,7 +603,7 @@ func runHistory(h []op) (key string, enabled bool, fails []vrt.Failure) {
 func main() {
 	xlog.ReplaceGlobal(xlog.New(xlog.NewNopCore()))
 	rep := report.New("C11", "model_checking")
-	rep.Rule = "explicit-state BFS over administration/token histories (save with narrowed, emptied, widened, push-only, admin rights; delete; login; refresh; +2h; +7d) on the real user manager, TokenManager and HTTP service; in every state a probe set is run against the real handlers and compared with a reference monitor computed from the rights as last saved: HTTP-FLV/HLS playlist/HLS segment/websocket upgrade x 4 paths x every issued/none/garbage token, management API x method x token, RTSP/TCP digest sessions (DESCRIBE/SETUP/PLAY and ANNOUNCE/SETUP/RECORD) x credentials x paths incl. user and path switching and rights narrowed in mid-session; the sessions behind an allowed websocket upgrade (ws-rtsp: pull, URL naming another path, publishing on 3 paths, rights narrowed between SETUP and PLAY; WSP: pull, narrowed rights, data channel joined by another user); plus the attacker-knowledge closure for token unpredictability"
+	rep.Rule = "explicit-state BFS over administration/token histories (save with narrowed, emptied, widened, push-only, admin rights; delete; login; refresh; +2h; +7d) on the real user manager, TokenManager and HTTP service; in every state a probe set is run against the real handlers and compared with a reference monitor computed from the rights as last saved: HTTP-FLV/HLS playlist/HLS segment/websocket upgrade x 4 paths x every issued/none/garbage token, management API x method x token, RTSP/TCP digest sessions (DESCRIBE/SETUP/PLAY and ANNOUNCE/SETUP/RECORD) x credentials x paths incl. user and path switching, rights narrowed in mid-session and the user deleted (or deleted and re-created) in mid-session; the sessions behind an allowed websocket upgrade (ws-rtsp: pull, URL naming another path, publishing on 3 paths, rights narrowed between SETUP and PLAY; WSP: pull, narrowed rights, data channel joined by another user); plus the attacker-knowledge closure for token unpredictability"
 	rep.Assumptions = []string{"state key = (u's saved rights, token classes): the handlers read nothing else", "HTTP media probes target paths without a live stream so that the interceptor decision (401/403 vs anything else) is observed without blocking in the streaming handler", "websocket sessions are created as service.onWebSocketRequest does after TryUpgrade (the upgrade decision itself is probed through the HTTP handler; the hijack needs a real socket)"}
 	depth := 4
 	if rep.Thorough() {
